@@ -145,8 +145,8 @@ def build(feature, timeout=2400):
 
 
 CHECK_RE = re.compile(
-    r"^Check \d+: (?P<name>\S+)\n\s+- Status: (?P<status>\w+)\n\s+- Description: \"(?P<desc>.*)\"\n(?:\s+- Location: (?P<loc>.*)\n)?",
-    re.M)
+    r"^Check \d+: (?P<name>\S+)\n\s+- Status: (?P<status>\w+)\n\s+- Description: \"(?P<desc>.*?)\"\n(?:\s+- Location: (?P<loc>[^\n]*)\n)?",
+    re.M | re.S)
 
 
 def parse_output(out):
@@ -154,6 +154,7 @@ def parse_output(out):
            "unwind_failed": False, "status_error": False}
     for m in CHECK_RE.finditer(out):
         name, status, desc, loc = m.group("name"), m.group("status"), m.group("desc"), m.group("loc")
+        desc = re.sub(r"\s+", " ", desc)
         if ".cover." in name or desc.startswith("cover condition") or status in (
                 "SATISFIED", "UNSATISFIABLE"):
             res["covers"].append({"desc": desc, "status": status})
@@ -224,6 +225,9 @@ def replay(feature, h, keep_dir):
         info["note"] = "no concrete playback test was produced"
         return info
     blocks = blocks[:4]
+    # keep only the test functions: Kani copies the (possibly multi-line) assertion text into a
+    # `///` comment, which does not compile when the text spans lines
+    blocks = [b[b.index("#[test]"):] if "#[test]" in b else b for b in blocks]
     body = "\n\n".join(blocks)
     tnames = re.findall(r"fn (kani_concrete_playback_\w+)", body)
     tname = "kani_concrete_playback"
